@@ -272,9 +272,11 @@ def r7_paging_can_continue(ctx):
         for b, i, t in fn.calls():
             if cname(t) == "limit" and t.get("args"):
                 for a in t["args"][1:]:
-                    c = cfg.op_const(a)
-                    if c and isinstance(c.get("s"), str):
-                        m = re.match(r"\?(\d+)$", c["s"].strip())
+                    e = idioms.expr_tree(b, a)
+                    while isinstance(e, tuple) and e[0] in ("cast",):
+                        e = e[1]
+                    if isinstance(e, tuple) and e[0] == "const" and isinstance(e[1], str):
+                        m = re.match(r"\?(\d+)$", e[1].strip())
                         if m:
                             lim_ph = int(m.group(1))
         if lim_ph is None:
@@ -285,7 +287,7 @@ def r7_paging_can_continue(ctx):
         for b in fn.bodies:
             defs = cfg.defs_of(b)
             for i, t in idioms.real_calls(b):
-                if cname(t) not in ("query", "query_map", "query_row", "execute", "query_and_then"):
+                if cname(t) not in ("query", "query_map", "query_row", "execute", "query_and_then", "query_map_and_then"):
                     continue
                 for a in t["args"]:
                     p_ = cfg.op_place(a)
